@@ -75,6 +75,7 @@ type CallSiteSpec struct {
 	Count  int // expected number of static call sites, or -1
 	Clause *Clause
 	Where  string
+	Props  []string // count clauses: callsite KEY count N {C10,C11}
 }
 
 type PredDef struct {
@@ -627,11 +628,19 @@ func (sp *Specs) directive(line, where string, cur **Contract) error {
 				}
 				cs.Clause = cl
 			} else if i := strings.Index(rest, " count "); i >= 0 {
-				n, err := strconv.Atoi(strings.TrimSpace(rest[i+7:]))
+				tail := strings.TrimSpace(rest[i+7:])
+				var cprops []string
+				if j := strings.Index(tail, "{"); j >= 0 && strings.HasSuffix(tail, "}") {
+					for _, p := range strings.Split(tail[j+1:len(tail)-1], ",") {
+						cprops = append(cprops, strings.TrimSpace(p))
+					}
+					tail = strings.TrimSpace(tail[:j])
+				}
+				n, err := strconv.Atoi(tail)
 				if err != nil {
 					return fmt.Errorf("%s: callsite count: %v", where, err)
 				}
-				cs = &CallSiteSpec{Callee: strings.TrimSpace(rest[:i]), Which: -1, Count: n, Where: where}
+				cs = &CallSiteSpec{Callee: strings.TrimSpace(rest[:i]), Which: -1, Count: n, Where: where, Props: cprops}
 			} else {
 				return fmt.Errorf("%s: callsite KEY N requires E | callsite KEY count N", where)
 			}
